@@ -137,7 +137,13 @@ fn evaluate_source(
                             match pair.as_rule() {
                                 Rule::identifier => {
                                     let identifier = pair.as_str();
-                                    if let Some(value) = bindings.get(identifier) {
+                                    // A name that is visible without being a binding (a built-in
+                                    // function, `constants`) is not in `bindings`; the declaration
+                                    // still evaluated to its value, so output that.
+                                    let declared = bindings
+                                        .get(identifier)
+                                        .or_else(|| result.as_ref().ok().copied());
+                                    if let Some(value) = declared {
                                         // Validate that the value is portable
                                         if let Err(e) = validate_portable_value(
                                             &value,
